@@ -106,7 +106,7 @@ def run_mode(ctx, res, mode):
     vlib.write_ndjson(ctx.path("cases.ndjson"), cases)
     vlib.run_harness(["typegen", vlib.CLI_BIN, ctx.path("cases.ndjson"), ctx.path("events.ndjson"), ctx.path("proj"), "12"], timeout=3000)
     events = vlib.read_ndjson(ctx.path("events.ndjson"))
-    o = vlib.validate_trace("Trace_C01", "Trace_C01.cfg", events, workdir=ctx.work, timeout=3400, xmx="3g", extra_env={"MODE": mode})
+    o = vlib.validate_trace("Trace_C01", "Trace_C01.cfg", events, workdir=ctx.work, timeout=3400, xmx="3g", extra_env={"MODE": mode, "TIER": ctx.tier})
     res.add_trace(o)
     discards = [s for s in o.stats if "discard" in s]
     judged = [s for s in o.stats if "ok" in s]
